@@ -41,10 +41,12 @@ def Why.res : Why → Res
 /-- One request call (`Conn.Do`). `buf` is the one-slot response channel of `doInternal`. -/
 structure Call where
   id : Nat
-  msg : Nat                  -- content of the request message when the call was made
+  msg : Nat                  -- content of the request message when the call was made (= the private clone)
   deadline : Option Nat
   phase : Phase
   buf : Option Nat
+  req : Nat                  -- content of the caller's own message now (the caller keeps the *pool.Message it passed to Do)
+  touched : Bool             -- ghost: the caller edited its message while the call was queued for an NSTART slot
   deriving Repr, DecidableEq
 
 /-- One entry of `midHandlerContainer` (`midElement`): the private clone, start, deadline, retransmit count. -/
@@ -89,19 +91,23 @@ def updCall (cs : List Call) (id : Nat) (f : Call → Call) : List Call :=
 
 def setPhase (p : Phase) (c : Call) : Call := { c with phase := p }
 def setBuf (tag : Nat) (c : Call) : Call := { c with buf := some tag }
+/-- The caller edits the message it passed to `Do` (not allowed while `Do` runs: the message belongs to the call;
+    modelled to show what the code does). -/
+def editReq (m : Nat) (c : Call) : Call := { c with req := m, touched := c.touched || c.phase == .waitSem }
 
 /-- Calls holding an outstanding-interaction slot: `writeMessage` has acquired it and has not returned. -/
 def inflight (cs : List Call) : Nat := cs.countP (fun c => c.phase == .waitAck)
 
-/-- `acquireOutstandingInteraction` succeeds for the longest-waiting call if a slot is free:
-    the clone goes into the pending table and the request is written. -/
+/-- `acquireOutstandingInteraction` succeeds for the longest-waiting call if a slot is free: the clone (taken in
+    `prepareWriteMessage` when the call was made, before the wait) goes into the pending table and the request is
+    written — `session.WriteMessage(req)`: from the caller's message as it is *now*. -/
 def admitNext (P : Params) (s : State) : State :=
   if inflight s.calls < P.nstart then
     match s.calls.find? (fun c => c.phase == .waitSem) with
     | some c =>
       { s with calls := updCall s.calls c.id (setPhase .waitAck),
                pend := s.pend ++ [⟨c.id, s.now, c.deadline, 0, c.msg⟩],
-               log := .tx c.id 0 s.now c.msg :: s.log }
+               log := .tx c.id 0 s.now c.req :: s.log }   -- the first datagram is written from the caller's message
     | none => s
   else s
 
@@ -198,8 +204,8 @@ def tick (P : Params) (s : State) (ahead : Nat) : State :=
 def send (P : Params) (s : State) (id msg : Nat) (dl : Option Nat) : State :=
   if (findCall s.calls id).isSome then s
   else if P.nstart = 0 then
-    { s with calls := s.calls ++ [⟨id, msg, dl, .done, none⟩], log := .ret id .nstart s.now :: s.log }
-  else admitNext P { s with calls := s.calls ++ [⟨id, msg, dl, .waitSem, none⟩] }
+    { s with calls := s.calls ++ [⟨id, msg, dl, .done, none, msg, false⟩], log := .ret id .nstart s.now :: s.log }
+  else admitNext P { s with calls := s.calls ++ [⟨id, msg, dl, .waitSem, none, msg, false⟩] }
 
 def step (P : Params) (s : State) : Ev → State
   | .send id msg dl => send P s id msg dl
@@ -208,7 +214,7 @@ def step (P : Params) (s : State) : Ev → State
   | .recvMid id k => recvMid P s id k
   | .resp id tag => deliver P s id tag
   | .cancel id why => cancel P s id why
-  | .mut _ _ => s          -- the caller's message is not read again after the first transmission
+  | .mut id msg => { s with calls := updCall s.calls id (editReq msg) }
 
 def runFrom (P : Params) (s : State) (evs : List Ev) : State := evs.foldl (step P) s
 def run (P : Params) (evs : List Ev) : State := runFrom P init evs
